@@ -90,6 +90,12 @@ def build_body(pt, ts, case, log_mode):
                 if win["how"] == "lenonly" else [root.decode(pt.Txn.application_args[0], start_index=pt.Int(pre))]
     else:
         steps = [root.decode(pt.Txn.application_args[0])]
+    if case.get("redecode"):
+        # the instance is first decoded from other bytes (the last application argument) and read, then decoded from the value
+        # under test: whatever it held before must not matter
+        k0 = sum(1 for p in path if p[0] == "arr" and not p[2]) + 1
+        pre = [root.decode(pt.Txn.application_args[k0]), pt.Pop(pt.Len(root.encode()))]
+        steps = pre + steps
     cur = root
     n_rt = 0
     for k, p in enumerate(path):
@@ -176,7 +182,10 @@ def check_case(pt, acc, case):
         arg0 = bytes.fromhex(win["pre_hex"]) + enc + bytes.fromhex(win["post_hex"])
         acc.counters["windowed_decode"] += 1
     rt = [p[1] for p in case["path"] if p[0] == "arr" and not p[2]]
-    ctx = avm.Ctx(group=[{"ApplicationArgs": [arg0] + [i.to_bytes(8, "big") for i in rt]}])
+    extra = [bytes.fromhex(case["redecode"])] if case.get("redecode") else []
+    ctx = avm.Ctx(group=[{"ApplicationArgs": [arg0] + [i.to_bytes(8, "big") for i in rt] + extra}])
+    if extra:
+        acc.counters["redecoded_instances"] += 1
     try:
         r = avm.run(avm.parse_any(teal), ctx)
     except (avm.Unsupported, avm.Timeout) as e:
@@ -266,6 +275,10 @@ def gen_case(rng, shapes, i):
     backend = rng.choice(["main", "sub", "sub_scratch"])
     case = {"type": tstr, "value": _val_to_json(val), "path": path, "log_mode": mode, "version": rng.choice([6, 7, 8, 9, 10]),
             "backend": backend, "how": rng.randrange(2), "named": rng.random() < .3}
+    if rng.random() < .2:
+        other = abigen.rand_val(rng, st)
+        if _nodes(other) <= 200:
+            case["redecode"] = st.encode(other).hex()
     if rng.random() < .3:
         pre = bytes(rng.randrange(256) for _ in range(rng.choice([1, 2, 5, 8])))
         post = bytes(rng.randrange(256) for _ in range(rng.choice([0, 0, 1, 3])))
